@@ -79,10 +79,10 @@ Proof.
   pose proof (c_range_all_below e) as Hab.
   destruct (c_range_b e) eqn:Er.
   - rewrite (Hab eq_refl). cbn [negb].
-    destruct r as [|k]; [|destruct k]; cbn [blames_b]; rewrite ?Er, ?(Hab eq_refl);
-    destruct (c_present_b e), (c_distinct_b e), (c_epoch_b cur e), (c_creator_b vals e),
-      (len_eq_b e ps), (c_lamport_b e ps), (c_selfparent_b e ps), (c_firstid_b e ps), (c_seq_b e ps);
-    cbn; split; intros; congruence.
+    destruct r as [|k]; [|destruct k]; cbn [blames_b]; rewrite ?Er, ?(Hab eq_refl); cbn;
+    case_on (c_present_b e); case_on (c_distinct_b e); case_on (c_epoch_b cur e);
+    case_on (c_creator_b vals e); case_on (len_eq_b e ps); case_on (c_lamport_b e ps);
+    case_on (c_selfparent_b e ps); case_on (c_firstid_b e ps); case_on (c_seq_b e ps).
   - destruct r as [|k]; [|destruct k]; cbn [blames_b]; rewrite ?Er;
     destruct (all_below_b e); cbn; rewrite ?andb_false_r; cbn; split; intros; congruence.
 Qed.
